@@ -256,6 +256,7 @@ def run_check(prop, tier, seed):
                merges=0, merged_paths=0, merge_fallbacks=0, two_var_relations=0, memo_hits=0, forks=0, slowest_query_s=0.0)
     asserts, panic_sites, partition = {}, {}, {'unsat': 0, 'other': 0, 'skipped': 0}
     outputs, gwrites, greads = set(), set(), set()
+    funcs_run = set()
     for r in results:
         for k in agg:
             if k == 'slowest_query_s':
@@ -278,6 +279,7 @@ def run_check(prop, tier, seed):
             partition['other'] += 1
         for x in r.get('inconclusive') or []:
             inconcl.append('%s: %s' % (r['id'], x))
+        funcs_run.update(r.get('functions_encoded') or [])
         outputs.update(r.get('outputs') or []); gwrites.update(r.get('global_writes') or []); greads.update(r.get('mutable_global_reads') or [])
 
     gstats = {}
@@ -510,7 +512,8 @@ def run_check(prop, tier, seed):
             exhaustive=(rc == 0),
             exhaustive_within_bounds=(rc == 0),
             technique='bounded symbolic execution of go/ssa for the real functions; every assertion decided by z3 over all values of the symbolic inputs within the bounds',
-            functions_encoded=funcs,
+            functions_encoded=sorted(funcs_run) or funcs,
+            functions_listed_in_design=funcs,
             bounds=[dict(group=g['name'], harness=g['harness'], jobs=len(g['jobs']), bound=g.get('bound', ''), symbolic=g.get('symbolic', '')) for g in groups],
             outside_bounds=spec.get('outside', ''),
             paths=dict(total=agg['paths'], completed=agg['completed'], panicking=agg['panics'], infeasible=agg['infeasible'], assume_failed=agg['assume_failed']),
